@@ -963,6 +963,16 @@ func provenNonNeg(v ssa.Value, facts []Fact, depth int) bool {
 	if isLenCall(v) {
 		return true
 	}
+	// max(x, k, ...) with some operand known non-negative
+	if cl, ok := v.(*ssa.Call); ok {
+		if b, isB := cl.Call.Value.(*ssa.Builtin); isB && b.Name() == "max" {
+			for _, a := range cl.Call.Args {
+				if depth < 4 && provenNonNeg(a, facts, depth+1) {
+					return true
+				}
+			}
+		}
+	}
 	if factsImply(facts, func(f Fact) bool {
 		if f.X != v {
 			return false
@@ -987,6 +997,16 @@ func provenNonNeg(v ssa.Value, facts []Fact, depth int) bool {
 func provenLeLen(v, coll ssa.Value, facts []Fact, depth int) bool {
 	if isLenValue(v, coll) {
 		return true
+	}
+	// min(x, len(coll), ...) with some operand known to be at most len(coll)
+	if cl, ok := v.(*ssa.Call); ok {
+		if b, isB := cl.Call.Value.(*ssa.Builtin); isB && b.Name() == "min" {
+			for _, a := range cl.Call.Args {
+				if depth < 4 && provenLeLen(a, coll, facts, depth+1) {
+					return true
+				}
+			}
+		}
 	}
 	if factsImply(facts, func(f Fact) bool {
 		return f.X == v && isLenValue(f.Y, coll) && (f.Op == token.LEQ || f.Op == token.LSS)
